@@ -11,9 +11,11 @@ from hypothesis.stateful import RuleBasedStateMachine, rule, invariant, precondi
 from .. import repo, core, purity as P, zygote
 from ..core import SubCheck, Fail, Discard, HarnessError, Stats, jsonable
 
-RULE = ("histories of 1..50 calls drawn from ~40 public-API entry points (conversions, geodesics incl. grid versions, "
+RULE = ("histories of 1..50 calls drawn from ~60 public-API entry points (conversions incl. date helpers and module-level angle "
+        "functions with caller arrays, geodesics incl. grid versions with the second point in a neighbouring zone, "
         "statistics, survey, 7/14-parameter transformations on sets with uncertainties in both directions, MGA and ATRF wrappers, "
-        "catalogue algebra, coordinate and angle objects) with valid generated arguments; rules: new call, repeat an earlier "
+        "catalogue algebra, caller-made parameter sets and ellipsoids, coordinate and angle objects incl. ones whose last field was "
+        "rounded up to 60, covariances symmetric to rounding only, NTv2 files) with valid generated arguments; rules: new call, repeat an earlier "
         "call, re-run the last calls split over 2..8 threads; non-trivial = history with at least one repeated call after at "
         "least one time-dependent or covariance call; distinct = distinct history")
 ASSUMPTIONS = ["write barrier: __setattr__ of Ellipsoid / Projection / Transformation / TransformationSD is replaced from the harness "
